@@ -21,8 +21,8 @@
 static int thorough;
 static int is_tsan;
 
-enum { B_FULL = 0, B_RESUME_A, B_RESUME_B, B_RESUME_A2, B_ROTATE, B_RESUME_A_NOEMS, B_RESUME_UNKNOWN, B_FULL_P384, B_DELKEY, B_CRL_FLUSH, B_NBODY };
-static const char *bname[] = { "full", "resume(A)", "resume(B)", "resume(A,2nd client)", "rotate-ticket-keys", "resume(A, extended master secret off)", "resume(unknown id)", "full(client enables only secp384r1)", "delete-the-only-ticket-key", "insert-a-crl-then-remove-all" };
+enum { B_FULL = 0, B_RESUME_A, B_RESUME_B, B_RESUME_A2, B_ROTATE, B_RESUME_A_NOEMS, B_RESUME_UNKNOWN, B_FULL_P384, B_DELKEY, B_CRL_FLUSH, B_OCSP_RELOAD, B_NBODY };
+static const char *bname[] = { "full", "resume(A)", "resume(B)", "resume(A,2nd client)", "rotate-ticket-keys", "resume(A, extended master secret off)", "resume(unknown id)", "full(client enables only secp384r1)", "delete-the-only-ticket-key", "insert-a-crl-then-remove-all", "load-a-new-OCSP-response" };
 
 typedef struct { const char *name; int ver, kx; uint16_t suite; int tickets; int prefill; int nthreads; int body[SR_MAXT]; int maxbound_tsan, maxbound; int cb; } scen_t;
 static const scen_t scens[] = {
@@ -47,6 +47,10 @@ static const scen_t scens[] = {
     { "ticket-full-handshake-vs-delete-the-only-key", V_TLS12, KX_RSA, 0, 1, 0, 2, { B_FULL, B_DELKEY }, 1, 2 },
     /* two threads flush the global CRL cache (the second finds it empty) */
     { "crl-cache-insert-and-remove-all-x2", V_TLS12, KX_PSK, 0, 0, 0, 2, { B_CRL_FLUSH, B_CRL_FLUSH }, 1, 2 },
+    /* cb 3: the server staples an OCSP response (the client asks for it) while the application refreshes that response,
+       "whenever the server application gets a new OCSP response" as the API documents */
+    { "ocsp-stapling-handshake-vs-response-refresh", V_TLS12, KX_RSA, 0, 0, 0, 2, { B_FULL, B_OCSP_RELOAD }, 1, 2, 3 },
+    { "ocsp-stapling-handshake-x2-vs-response-refresh", V_TLS12, KX_RSA, 0, 0, 0, 3, { B_FULL, B_FULL, B_OCSP_RELOAD }, 1, 1, 3 },
     /* cb 2: the tickets' key has been rotated out before the threads start; the callback of each resuming session loads
        it again (what the API documents the callback for) */
     { "ticket-callback-loads-missing-key-x2", V_TLS12, KX_RSA, 0, 1, 0, 2, { B_RESUME_A, B_RESUME_B }, 1, 2, 2 },
@@ -64,6 +68,7 @@ static const scen_t *CUR;
 static void hook_lock(void *m) { sr_before_lock(m); }
 static void hook_unlock(void *m) { sr_after_unlock(m); }
 
+static unsigned char ocsp_resp[600];
 static void body_connect(int id, sslSessionId_t *sid)
 {
     world_t w;
@@ -77,6 +82,10 @@ static void body_connect(int id, sslSessionId_t *sid)
     if (CUR->body[id] == B_FULL_P384)
     {
         w.cfg.ec384 = 1;
+    }
+    if (CUR->cb == 3)
+    {
+        w.cfg.ocsp = 1;
     }
     w.s[1].is_server = 1;
     w.s[0].keys = base.s[0].keys;
@@ -179,6 +188,15 @@ static void *thread_main(void *arg)
         snprintf(thr_out[id], sizeof(thr_out[id]), "del%d", b);
         break;
     }
+    case B_OCSP_RELOAD:
+    {
+        int a;
+        memset(ocsp_resp, 0x30, sizeof(ocsp_resp));
+        ocsp_resp[1] = 0x82; ocsp_resp[2] = 0x02; ocsp_resp[3] = 0x54;   /* 600 bytes shaped like a SEQUENCE: another size than the first */
+        a = matrixSslLoadOCSPResponse(base.s[1].keys, ocsp_resp, 600);
+        snprintf(thr_out[id], sizeof(thr_out[id]), "ocsp%d", a);
+        break;
+    }
     case B_CRL_FLUSH:
     {
         /* an (empty, unauthenticated) CRL object goes into the cache and the cache is flushed */
@@ -272,6 +290,16 @@ static void run_execution(int si, const unsigned char *prefix, int nprefix)
     if (S->cb == 1)
     {
         matrixSslSetSessionTicketCallback(base.s[1].keys, ticket_cb_accept_cached);
+    }
+    else if (S->cb == 3)
+    {
+        static unsigned char first[300];
+        memset(first, 0x30, sizeof(first));
+        first[1] = 0x82; first[2] = 0x01; first[3] = 0x28;
+        if (matrixSslLoadOCSPResponse(base.s[1].keys, first, sizeof(first)) < 0)
+        {
+            _exit(45);
+        }
     }
     else if (S->cb == 2)
     {
